@@ -363,6 +363,13 @@ func scenarioC18(r *Run) {
 		}
 	}
 	res := RunConcurrent(cfg, tasks, monitor)
+	if res.Aborted {
+		// a task blocked outside a yield point (a lock held by a parked task):
+		// this schedule cannot be executed under a serialising scheduler; the
+		// run is not judged (the race build still sees whatever ran freely)
+		r.Probe("schedule-infeasible(task-blocked)")
+		r.Skip("schedule infeasible: a task blocked outside a yield point")
+	}
 	r.Steps += int(res.Steps)
 	r.Logf("schedule hash %x steps %d switches %d", res.Hash, res.Steps, res.Switches)
 	r.sched = append(r.sched, res.Hash)
